@@ -262,6 +262,23 @@ func (d *Driver) ctx(ms int) (context.Context, context.CancelFunc) {
 	return context.WithCancel(context.Background())
 }
 
+// bounded runs a context-less library call (State()) that must return at once; if it has not returned within the watchdog
+// time this is recorded as an observation (Watchdog event) and the script goes on without its result.
+func (d *Driver) bounded(op, obj string, f func()) bool {
+	done := make(chan struct{})
+	go func() {
+		defer close(done)
+		f()
+	}()
+	select {
+	case <-done:
+		return true
+	case <-time.After(d.wd):
+		d.rec.Log("Watchdog", "g", "main", "op", op, "obj", obj, "boundMs", int(d.wd/time.Millisecond))
+		return false
+	}
+}
+
 // api wraps one API call with ApiCall/ApiRet events and a watchdog.
 func (d *Driver) api(g, op, obj string, kv []any, f func() (error, []any)) error {
 	d.mu.Lock()
@@ -562,7 +579,10 @@ func (d *Driver) exec(st *Step, g string) {
 		})
 	case "state":
 		if u := d.up(st.Obj); u != nil {
-			s := u.State()
+			var s *iscp.UpstreamState
+			if !d.bounded("State", st.Obj, func() { s = u.State() }) {
+				return
+			}
 			al := [][]any{}
 			for a, id := range s.DataIDAliases {
 				al = append(al, []any{int(a), id.Name})
@@ -654,7 +674,10 @@ func (d *Driver) exec(st *Step, g string) {
 		})
 	case "downState":
 		if dn := d.down(st.Obj); dn != nil {
-			s := dn.State()
+			var s *iscp.DownstreamState
+			if !d.bounded("DownState", st.Obj, func() { s = dn.State() }) {
+				return
+			}
 			ua := [][]any{}
 			for a, info := range s.UpstreamInfos {
 				ua = append(ua, []any{int(a), d.b.upKeyOf(info.StreamID)})
